@@ -98,6 +98,7 @@ Proof.
     rewrite Hlen.
     destruct (l * 8 + N.of_nat (List.length (concat (map obytes r))) <? 2) eqn:E2; [lia|].
     unfold at_. cbn [nth].
+    destruct (l * 8 =? 0) eqn:E0; [lia|].
     destruct (l * 8 + N.of_nat (List.length (concat (map obytes r))) <? l * 8) eqn:E3; [lia|].
     assert (Hn : N.to_nat (l * 8) = S (S (List.length body))) by lia.
     rewrite Hn. cbn [firstn skipn].
